@@ -286,3 +286,50 @@ def _field_setters(ctx):
     t = " ".join(_n(chk[0].test).split()) if chk else ""
     ok = bool(chk) and t in ("%s not in (0, -1)" % v_, "%s != 0 and %s != -1" % (v_, v_), "%s not in (-1, 0)" % v_)
     ctx.ob("C10.R6", T + ":bit_concat.setter", "what remains of the value after all parts were filled must be 0 (or -1 for a negative value): otherwise the value does not fit and ValueError is raised", ok, construct="concat-leftover-checked", detail=t)
+    _encoder_operands(ctx)
+
+
+def encoder_operand_sites(project):
+    """(rel, class, function, kind, node, text): how encode()/render()/set_user_patterns() treat the instruction's
+    own integer operands - kind 'masked' (self.op & CONST or % CONST on the raw operand), 'mutated' (self.op = ...)"""
+    import ast as _a
+    from ..core import norm as _n, try_const as _tc
+    out = []
+    for rel, m in sorted(project.modules.items()):
+        if not rel.startswith("ppci/arch/"):
+            continue
+        for c in _a.walk(m.tree):
+            if not isinstance(c, _a.ClassDef):
+                continue
+            for f in c.body:
+                if not (isinstance(f, _a.FunctionDef) and f.name in ("encode", "set_user_patterns", "render", "relocations", "gen_relocations", "__str__")):
+                    continue
+                for x in _a.walk(f):
+                    if isinstance(x, _a.BinOp) and isinstance(x.op, (_a.BitAnd, _a.Mod)):
+                        if isinstance(getattr(x, "_parent", None), _a.Compare):
+                            continue   # `assert self.imm % 4 == 0`, `if self.imm & 0x800`: a test, not a truncation
+                        for a, b in ((x.left, x.right), (x.right, x.left)):
+                            if isinstance(a, _a.Attribute) and _n(a.value) == "self" and isinstance(_tc(b), int) and a.attr not in ("num", "opcode", "opcode2", "func", "cond"):
+                                out.append((rel, c.name, f.name, "masked", x, _n(x)))
+                    elif isinstance(x, (_a.Assign, _a.AugAssign)):
+                        for t in (x.targets if isinstance(x, _a.Assign) else [x.target]):
+                            if isinstance(t, _a.Attribute) and _n(t.value) == "self" and t.attr not in ("rep",):
+                                out.append((rel, c.name, f.name, "mutated", x, " ".join(_n(x).split())[:60]))
+    return out
+
+
+def _encoder_operands(ctx):
+    import ast as _a
+    ctx.rule("C10.R7", "encoders never mask (`self.imm & 0xFFF`) or overwrite an operand of their own instruction: an immediate that does not fit must reach a range gate (wrap_negative, the token field setter), and encoding must not change what the instruction prints or encodes next time", floor=1)
+    ctl = _a.parse("class K:\n    def encode(self):\n        self.offset = self.offset & 0xFFF\n        return self.offset\n")
+    for par in _a.walk(ctl):
+        for ch in _a.iter_child_nodes(par):
+            ch._parent = par
+
+    class _P:
+        modules = {"ppci/arch/x.py": type("M", (), {"tree": ctl})()}
+    ctx.need(sorted(k for _, _, _, k, _, _ in encoder_operand_sites(_P())) == ["masked", "mutated"], "C10.R7 positive control lost")
+    sites = encoder_operand_sites(ctx.project)
+    for rel, cname, fname, kind, node, txt in sites:
+        ctx.ob("C10.R7", "%s:%s.%s" % (rel, cname, fname), "the instruction's operand is neither masked nor overwritten while it is encoded", False, construct="%s:%s" % (kind, txt[:50]), node=node, detail="%s: %s" % (kind, txt))
+    ctx.ob("C10.R7", "ppci/arch/*", "encoders scanned for masked / overwritten operands", not sites, construct="scan-encoder-operands")
